@@ -194,6 +194,7 @@ class Network(object):
     self.installed = False
     self.all_conns = []
     self.faults_fired = []
+    self.read_spins = []
 
   def _next_conn_id(self):
     self._conn_id += 1
@@ -234,6 +235,7 @@ class Network(object):
     self.connect_hook = None
     self.all_conns = []
     self.faults_fired = []
+    self.read_spins = []
 
   def add_server(self, host, port, handler_factory):
     s = SimServer(self, host, port, handler_factory)
@@ -465,7 +467,20 @@ class SimSocket(object):
       if conn.server_closed == 'rst':
         raise _oserr(errno.ECONNRESET)
       if conn.server_closed == 'fin' and not conn._wire:
-        env.emit('net.recv', conn=conn.id, op=ordinal, n=0, upto=conn.s2c_read)
+        # End of stream: every further read returns 0 at once, as the kernel does.  A reader that
+        # keeps asking (a read loop without an end-of-stream check) would spin for ever without
+        # yielding; the simulation counts the consecutive empty reads in one virtual instant and,
+        # at 2000, records the spin (an observation for the monitors) and breaks it with a reset.
+        spin = getattr(conn, '_eof_spin', (None, 0))
+        spin = (env.now, spin[1] + 1) if spin[0] == env.now else (env.now, 1)
+        conn._eof_spin = spin
+        if spin[1] >= 2000:
+          conn._eof_spin = (None, 0)
+          env.emit('net.read-spin', conn=conn.id, op=ordinal, reads=spin[1])
+          self.net.read_spins.append((conn.id, env.now))
+          raise _oserr(errno.ECONNRESET)
+        if spin[1] == 1:
+          env.emit('net.recv', conn=conn.id, op=ordinal, n=0, upto=conn.s2c_read)
         return 0
       self._block()
 
